@@ -198,6 +198,19 @@ func (w *c07World) build(k c07Keys, m c07Msg) *evm.MsgEthereumTx {
 	case "create_oog":
 		data = c07Init
 		gas = 53_000 + 16*uint64(len(c07Init)) // >= intrinsic, not enough to run + deposit
+	case "drain": // sends 90% of the current balance away
+		a := gethcommon.HexToAddress("0x00000000000000000000000000000000000C07EE")
+		to = &a
+		value = w.fraction(acc.EthAddr, 9, 10)
+	case "create_val": // creation endowed with half of the current balance
+		data = c07Init
+		gas = 200_000
+		value = w.fraction(acc.EthAddr, 1, 2)
+	case "call_val": // call carrying half of the current balance
+		a := w.target
+		to = &a
+		data = make([]byte, 32)
+		value = w.fraction(acc.EthAddr, 1, 2)
 	}
 	var inner gethcore.TxData
 	switch m.Ty {
@@ -254,6 +267,14 @@ func (w *c07World) build(k c07Keys, m c07Msg) *evm.MsgEthereumTx {
 	return msg
 }
 
+// fraction returns num/den of the account's current balance, in wei, truncated to whole unibi.
+func (w *c07World) fraction(a gethcommon.Address, num, den int64) *big.Int {
+	b := w.c.App.BankKeeper.GetBalance(w.c.Ctx(), eth.EthAddrToNibiruAddr(a), "unibi").Amount.BigInt()
+	b.Mul(b, big.NewInt(num))
+	b.Quo(b, big.NewInt(den))
+	return b.Mul(b, unibiWei)
+}
+
 // rawSigner is a chain-agnostic ECDSA recovery: the signer the tx's own chain id implies.
 func rawSigner(tx *gethcore.Transaction) (gethcommon.Address, bool) {
 	var s gethcore.Signer
@@ -275,10 +296,17 @@ func execClass(act string) (string, bool) {
 		return "msgerr", false
 	case "call_revert", "create_revert", "create_oog":
 		return "vmerr", false
-	case "create_ok":
+	case "create_ok", "create_val":
 		return "ok", true
 	}
 	return "ok", false
+}
+
+type c07Sim struct {
+	addr  gethcommon.Address
+	ok    bool
+	fee   *big.Int
+	value *big.Int
 }
 
 type c07Run struct {
@@ -367,6 +395,16 @@ func (w *c07World) runCase(t *testing.T, blocks [][]c07Tx) ([][][]c07Der, [][]c0
 			var res abci.ResponseDeliverTx
 			var td []c07Der
 			var txMsgs []*evm.MsgEthereumTx
+			var sims []c07Sim
+			if tx.Kind == "fund" {
+				// not a tx: the driver tops the EVM account of key i up again (bank level)
+				if err := c.Fund(r.k.eth[tx.Key%nKeys].NibiruAddr, Unibi(1e13)); err != nil {
+					t.Fatal(err)
+				}
+				bd = append(bd, td)
+				bo = append(bo, c07TxObs{Exec: []int{}, Created: [][2]int{}, Seqs: r.seqs()})
+				continue
+			}
 			if tx.Kind == "cosmos" {
 				res = r.deliverCosmos(tx)
 			} else {
@@ -394,14 +432,45 @@ func (w *c07World) runCase(t *testing.T, blocks [][]c07Tx) ([][][]c07Der, [][]c0
 					if etx.Type() != gethcore.LegacyTxType || etx.Protected() {
 						d.Cid = etx.ChainId().String()
 					}
+					var rawAddr gethcommon.Address
+					hasSigner := false
 					if a, ok := rawSigner(etx); ok {
 						d.Signer = r.idOf(a)
-						d.Funded = d.Signer < nFunded
+						rawAddr, hasSigner = a, true
 					}
 					d.Exec, d.Create = execClass(spec.Act)
 					td = append(td, d)
 					cp := *msg
 					txMsgs = append(txMsgs, &cp)
+					sims = append(sims, c07Sim{addr: rawAddr, ok: hasSigner, fee: etx.Cost().Sub(etx.Cost(), etx.Value()), value: etx.Value()})
+				}
+				// balance bookkeeping (bank reads only): every message must afford its own cost against the
+				// pre-tx balance (AnteDecVerifyEthAcc); at execution a value the earlier messages of the same tx
+				// left uncovered makes the EVM refuse the transfer (vm error, no state change)
+				remaining := map[gethcommon.Address]*big.Int{}
+				for i, sm := range sims {
+					if !sm.ok {
+						continue
+					}
+					if _, seen := remaining[sm.addr]; !seen {
+						remaining[sm.addr] = new(big.Int).Mul(w.c.App.BankKeeper.GetBalance(c.Ctx(), eth.EthAddrToNibiruAddr(sm.addr), "unibi").Amount.BigInt(), unibiWei)
+					}
+					td[i].Funded = remaining[sm.addr].Cmp(new(big.Int).Add(sm.fee, sm.value)) >= 0
+				}
+				for _, sm := range sims { // all prepayments are taken in the ante handler
+					if sm.ok {
+						remaining[sm.addr].Sub(remaining[sm.addr], sm.fee)
+					}
+				}
+				for i, sm := range sims {
+					if !sm.ok || sm.value.Sign() == 0 || td[i].Exec != "ok" {
+						continue
+					}
+					if sm.value.Cmp(remaining[sm.addr]) > 0 {
+						td[i].Exec, td[i].Create = "vmerr", false
+					} else {
+						remaining[sm.addr].Sub(remaining[sm.addr], sm.value)
+					}
 				}
 				res = c.DeliverEth(txMsgs...)
 			}
@@ -469,7 +538,7 @@ func (w *c07World) runCase(t *testing.T, blocks [][]c07Tx) ([][][]c07Der, [][]c0
 
 // ---------------------------------------------------------------- generation
 
-var c07Acts = []string{"transfer", "call_ok", "call_revert", "create_ok", "create_revert", "create_oog", "lowgas"}
+var c07Acts = []string{"transfer", "call_ok", "call_revert", "create_ok", "create_revert", "create_oog", "lowgas", "drain", "create_val", "call_val"}
 
 func genC07Case(r *Rng) [][]c07Tx {
 	exp := make([]uint64, nKeys)  // generator's own expectation of eth sequences (only steers generation)
@@ -487,6 +556,10 @@ func genC07Case(r *Rng) [][]c07Tx {
 		nt := r.Range(1, 6)
 		var blk []c07Tx
 		for i := 0; i < nt; i++ {
+			if r.Chance(1, 16) {
+				blk = append(blk, c07Tx{Kind: "fund", Key: r.Intn(nFunded)})
+				continue
+			}
 			if r.Chance(1, 7) {
 				k := r.Intn(nFunded)
 				tx := c07Tx{Kind: "cosmos", Key: k, Q: cexp[k]}
@@ -533,7 +606,14 @@ func genC07Case(r *Rng) [][]c07Tx {
 				}
 				m := c07Msg{Dup: -1, S: s, N: tmp[s], Ty: r.Pick(5, 2, 3), Cid: "ok", Sig: "ok", Salt: salt}
 				salt++
-				m.Act = c07Acts[r.Pick(5, 3, 3, 3, 1, 1, 2)]
+				m.Act = c07Acts[r.Pick(5, 3, 3, 3, 1, 1, 2, 1, 2, 1)]
+				if j > 0 && r.Chance(1, 3) {
+					// a later message of a multi-message tx whose value the earlier ones may have spent
+					m.Act = []string{"create_val", "call_val", "drain"}[r.Pick(3, 1, 1)]
+					if tx.Msgs[0].Dup < 0 && r.Chance(1, 2) {
+						tx.Msgs[0].Act = []string{"drain", "create_val"}[r.Intn(2)]
+					}
+				}
 				switch r.Pick(12, 2, 2, 1, 1) { // nonce: exact, gap, stale, same-as-previous-in-tx, far
 				case 1:
 					m.N += uint64(r.Range(1, 3))
@@ -573,6 +653,19 @@ func genC07Case(r *Rng) [][]c07Tx {
 				exp = tmp
 			}
 			blk = append(blk, tx)
+		}
+		blocks = append(blocks, blk)
+	}
+	// a closing block resubmits every message delivered so far, byte for byte, one per tx
+	if nmsg > 0 && r.Chance(2, 3) {
+		var blk []c07Tx
+		if r.Chance(1, 2) {
+			for k := 0; k < nFunded; k++ {
+				blk = append(blk, c07Tx{Kind: "fund", Key: k})
+			}
+		}
+		for i := 0; i < nmsg && i < 14; i++ {
+			blk = append(blk, c07Tx{Kind: "eth", Msgs: []c07Msg{{Dup: i}}})
 		}
 		blocks = append(blocks, blk)
 	}
@@ -626,6 +719,10 @@ func TestC07(t *testing.T) {
 	// … one key used on both paths
 	run([][]c07Tx{{{Kind: "cosmos", Key: 0, Q: 0}, e(m(0, 0, "transfer", 1)), {Kind: "cosmos", Key: 0, Q: 0}, {Kind: "cosmos", Key: 0, Q: 1, Bad: true},
 		{Kind: "cosmos", Key: 0, Q: 1, EthKey: true}, e(m(0, 1, "call_ok", 2))}})
+	// … a later message of the same tx left underfunded by an earlier one (the EVM refuses the value
+	// before it touches the nonce), for a creation, a call and a plain transfer; then everything resubmitted
+	run([][]c07Tx{{e(m(0, 0, "drain", 0), m(0, 1, "create_val", 0))}, {e(dup(1)), {Kind: "fund", Key: 0}, e(dup(1)), e(dup(0)), e(m(0, 2, "create_ok", 1))},
+		{e(m(1, 0, "create_val", 0), m(1, 1, "call_val", 0), m(1, 2, "drain", 0))}, {e(dup(6)), e(dup(7)), e(dup(8)), e(m(1, 3, "transfer", 2))}})
 	rng := NewRng(cfg.Seed)
 	for i := 0; i < cfg.N; i++ {
 		run(genC07Case(rng.Fork()))
